@@ -80,3 +80,28 @@ Fixpoint unoffset (p : pex) : bool :=
   match p with PAx _ _ _ => true | PFl cs => forallb unoffset cs | POff _ _ _ => false end.
 Definition reduce_ok (din dout : list pex) : bool :=
   forallb unoffset din && nodupb (lnames din) && rearrange_ok (kept din) dout.
+
+(* ---- dot on the matmul path (numpy.numpylike; _src/adapter/decomposednamedtensor_from_classical.py: dot) ----
+   the axes of the two operands are classified - batch (in both and in the output), contracted (in both, not in the
+   output), kept left / right -, both operands are rearranged to (batch) (left) (contracted) and (batch) (contracted) (right),
+   the backend's batched matmul is applied, and its (batch) (left) (right) result is rearranged into the output *)
+Definition leaf_ax (x : N * N * bool) : pex := PAx (fst (fst x)) (snd (fst x)) false.
+Definition dot_batch (d1 d2 dout : list pex) : list pex :=
+  map leaf_ax (filter (fun x => memNb (fst (fst x)) (lnames d2) && memNb (fst (fst x)) (lnames dout)) (leaves d1)).
+Definition dot_contract (d1 d2 dout : list pex) : list pex :=
+  map leaf_ax (filter (fun x => memNb (fst (fst x)) (lnames d2) && negb (memNb (fst (fst x)) (lnames dout))) (leaves d1)).
+Definition dot_left (d1 d2 : list pex) : list pex :=
+  map leaf_ax (filter (fun x => negb (memNb (fst (fst x)) (lnames d2))) (leaves d1)).
+Definition dot_right (d1 d2 : list pex) : list pex :=
+  map leaf_ax (filter (fun x => negb (memNb (fst (fst x)) (lnames d1))) (leaves d2)).
+Definition dot_lhs (d1 d2 dout : list pex) : list pex := [PFl (dot_batch d1 d2 dout); PFl (dot_left d1 d2); PFl (dot_contract d1 d2 dout)].
+Definition dot_rhs (d1 d2 dout : list pex) : list pex := [PFl (dot_batch d1 d2 dout); PFl (dot_contract d1 d2 dout); PFl (dot_right d1 d2)].
+Definition dot_mid (d1 d2 dout : list pex) : list pex := [PFl (dot_batch d1 d2 dout); PFl (dot_left d1 d2); PFl (dot_right d1 d2)].
+Definition dot_matmul (d1 d2 dout : list pex) : tm :=
+  MOther "matmul" [lower_rearrange 0 d1 (dot_lhs d1 d2 dout); lower_rearrange 1 d2 (dot_rhs d1 d2 dout)] ["kw:"%string]
+         (map psize (dot_mid d1 d2 dout)).
+Definition lower_dot (d1 d2 dout : list pex) : tm :=
+  let mid := dot_mid d1 d2 dout in
+  MReshape (MTranspose (MReshape (dot_matmul d1 d2 dout) (llens mid)) (perm_of mid dout)) (map psize dout).
+Definition dot_ok (d1 d2 dout : list pex) : bool :=
+  rearrange_ok d1 (dot_lhs d1 d2 dout) && rearrange_ok d2 (dot_rhs d1 d2 dout) && rearrange_ok (dot_mid d1 d2 dout) dout.
